@@ -43,7 +43,7 @@ fn generate(rng: &mut Rng, tier: Tier, cases: &mut Vec<Case>) {
         Tier::Thorough => 5,
     };
     let mk = |rng: &mut Rng, w: usize, h: usize, nk: u64, ek: u64| -> Graph {
-        let s = GridSpec { w, h, node_keep: nk, edge_keep: ek, diag: 0, chord: 0, base: *rng.pick(&BASES), swap: rng.chance(1, 2), order: rng.below(3) as u8 };
+        let s = GridSpec { w, h, node_keep: nk, edge_keep: ek, diag: 0, chord: 0, base: *rng.pick(&BASES), swap: rng.chance(1, 2), rot: rng.chance(1, 4), order: rng.below(3) as u8 };
         gen_grid(rng, &s)
     };
     // many small cells: wide job queues (outer parallelism) and four concurrent axes per job (inner)
@@ -81,7 +81,7 @@ fn generate(rng: &mut Rng, tier: Tier, cases: &mut Vec<Case>) {
     // denser graphs: bigger cuts, the bound aborts more runs
     for _ in 0..(2 * scale) {
         let (w, h) = (8 + rng.below(6) as usize, 8 + rng.below(6) as usize);
-        let s = GridSpec { w, h, node_keep: 950, edge_keep: 950, diag: 700, chord: 300, base: *rng.pick(&BASES), swap: false, order: 1 };
+        let s = GridSpec { w, h, node_keep: 950, edge_keep: 950, diag: 700, chord: 300, base: *rng.pick(&BASES), swap: false, rot: false, order: 1 };
         let g = gen_grid(rng, &s);
         let r = 3 + rng.below(5) as u32;
         let b = balance_factor(rng);
